@@ -354,6 +354,31 @@ func writesToken(ws [][]byte, t0, t1 int64) (string, bool) {
 	return strings.Join(parts, "+"), timeOK
 }
 
+// nonZeroElem: an element of the given kind with a value that is not its type's empty value
+func nonZeroElem(ie *entities.InfoElement) (entities.InfoElementWithValue, bool) {
+	tok := "n1"
+	switch ie.DataType {
+	case entities.Boolean:
+		tok = "t"
+	case entities.String:
+		tok = "x76"
+	case entities.MacAddress:
+		tok = "x010101010101"
+	case entities.Ipv4Address:
+		tok = "x01010101"
+	case entities.Ipv6Address:
+		tok = "x01010101010101010101010101010101"
+	case entities.OctetArray:
+		n := int(ie.Len)
+		if ie.Len == entities.VariableLength || n == 0 || n > 64 {
+			n = 1
+		}
+		tok = "x" + strings.Repeat("01", n)
+	}
+	e, err := mkElem(ie, tok)
+	return e, err == nil
+}
+
 func engExp(a []string) string {
 	if len(a) == 0 {
 		return "bad-op"
@@ -498,6 +523,19 @@ func engExp(a []string) string {
 		t0 := time.Now().Unix()
 		n, err := expProc.SendSet(set)
 		t1 := time.Now().Unix()
+		if err == nil && set.GetSetType() == entities.Template {
+			// the application owns the elements it built the template from and may go on using them - here: it gives
+			// every one of them a value, as an exporter does that fills the same element objects for its data records.
+			// What the exporting process keeps of a template (for the data-record checks, for the UDP refresh) must not
+			// depend on them.
+			for _, r := range set.GetRecords() {
+				for _, e := range r.GetOrderedElementList() {
+					if nz, ok := nonZeroElem(e.GetInfoElement()); ok {
+						copyValue(e, nz)
+					}
+				}
+			}
+		}
 		if expJSON {
 			// JSON mode: only the number of (successful) Write calls is reported, the text is not
 			expConn.take()
